@@ -61,7 +61,7 @@ func (C02) Runs(tier string) int {
 func (C02) Meta() core.Meta {
 	return core.Meta{
 		Level: "fault_enumeration",
-		Rule: "a case = (file, one storage fault or writer-crash point or with-key chunk sequence, delivery schedule, read schedule); every damaged image is read under the plan's schedule plus unbuffered data-with-EOF and byte-at-a-time. Sweep runs enumerate every bit flip and every truncation length of the payload region (nonce and chunks) of a small file; sampled runs damage multi-chunk files near chunk boundaries (flip, insert, delete, extend, drop/dup/swap/move/misdirect a chunk write) or build a with-key sequence of up to 5 chunk variants (one run per batch puts such a tail behind 255..257 honest chunks, 16 MiB) (other counter, other final flag, short, empty, split in two, sealed under a foreign key). Non-trivial = image differs from the honest file; distinct = distinct (file skeleton, damage, delivery).",
+		Rule: "a case = (file, one storage fault or writer-crash point or with-key chunk sequence, delivery schedule, read schedule); every damaged image is read under the plan's schedule plus unbuffered data-with-EOF and byte-at-a-time. Sweep runs enumerate every bit flip, every truncation length, every deleted byte, an inserted byte at every offset and every extension by 1..18 bytes of the payload region (nonce and chunks) of a small file, and every extension by 1..40 bytes (zeros, random, copy of the last chunk, a sealed empty chunk) of files whose final chunk is full-size; sampled runs damage multi-chunk files near chunk boundaries (flip, insert, delete, extend, drop/dup/swap/move/misdirect a chunk write) or build a with-key sequence of up to 5 chunk variants (one run per batch puts such a tail behind 255..257 honest chunks, 16 MiB) (other counter, other final flag, short, empty, split in two, sealed under a foreign key). Non-trivial = image differs from the honest file; distinct = distinct (file skeleton, damage, delivery).",
 		Assumptions: []string{
 			"ChaCha20-Poly1305, HKDF and the reference STREAM model are the trusted base",
 			"with-key sequences: accepted with a clean end => image is byte for byte the canonical encoding of the released plaintext (one chunking per plaintext); a (key, nonce) pair reused across different plaintexts is not a generated fault",
@@ -90,6 +90,10 @@ func (C02) Generate(r *core.RNG, tier string, idx uint64) interface{} {
 		}
 		p.File.PLen = r.Intn(max + 1)
 		p.Rearmor = false
+		if idx%60 == 0 {
+			p.Sweep = "extensions"
+			p.File.PLen = 65536 * r.Range(1, 2)
+		}
 	case idx%2000 == 44:
 		// a with-key tail behind 255..257 honest chunks: the empty-final and counter rules at counters whose low byte is 0 or 255
 		p.File.Recips = []lib.Recip{{Key: &world.Key{T: "x", K: r.Intn(world.NX25519)}}}
@@ -481,6 +485,23 @@ func (e C02) Execute(plan interface{}, c *core.Ctx) *core.Verdict {
 	}
 
 	switch {
+	case p.Sweep == "extensions":
+		// full-size final chunk: every amount of trailing data 1..40 and a whole extra chunk
+		for n := 1; n <= 40; n++ {
+			for _, fill := range []string{"zeros", "random", "lastchunk", "sealedempty"} {
+				d := &Damage{Kind: "extend", N: n, Fill: fill}
+				if v := keyless(applyDamage(d, F, l, spec), d); v != nil {
+					return v
+				}
+			}
+		}
+		for _, n := range []int{65551, 65552, 65553} {
+			d := &Damage{Kind: "extend", N: n, Fill: "lastchunk"}
+			if v := keyless(applyDamage(d, F, l, spec), d); v != nil {
+				return v
+			}
+		}
+		return nil
 	case p.Sweep != "":
 		region := len(F) - l.HeaderLen
 		for off := 0; off < region; off++ {
@@ -490,6 +511,19 @@ func (e C02) Execute(plan interface{}, c *core.Ctx) *core.Verdict {
 			}
 			for bit := 0; bit < 8; bit++ {
 				d := &Damage{Kind: "flip", Off: off, Bit: bit}
+				if v := keyless(applyDamage(d, F, l, spec), d); v != nil {
+					return v
+				}
+			}
+			for _, d := range []*Damage{{Kind: "delete", Off: off}, {Kind: "insert", Off: off, N: 0}, {Kind: "insert", Off: off, N: int(F[l.HeaderLen+off])}} {
+				if v := keyless(applyDamage(d, F, l, spec), d); v != nil {
+					return v
+				}
+			}
+		}
+		for n := 1; n <= 18; n++ {
+			for _, fill := range []string{"zeros", "lastchunk"} {
+				d := &Damage{Kind: "extend", N: n, Fill: fill}
 				if v := keyless(applyDamage(d, F, l, spec), d); v != nil {
 					return v
 				}
